@@ -600,3 +600,579 @@ Proof.
   - cbn [app]. rewrite <- app_assoc. reflexivity.
   - rewrite nlen_cons, nlen_app. change (nlen [0]) with 1. f_equal. lia.
 Qed.
+
+(* ---- sequences of values (struct fields, dict entry, body) ---------------------------------- *)
+Lemma vbs_sound le d : SOUND le d ->
+  forall ts depth pos data c', forallb tygood ts = true -> depth <= max_value_depth -> all_bytes data = true ->
+    vbs le d ts depth (curof pos data) = inl c' ->
+    exists vs, map ty_of_val vs = ts /\ RESS le vs depth pos data c'.
+Proof.
+  intros IH. induction ts as [|t r IHr]; intros depth pos data c' Hg Hd Hb H.
+  - cbn in H. injection H as <-. exists []. split; [reflexivity|]. exists data. cbn [wfxs forallb encs app].
+    repeat split. rewrite nlen_nil, N.add_0_r. reflexivity.
+  - cbn [forallb] in Hg. apply andb_true_iff in Hg. destruct Hg as [Hg1 Hg2]. cbn [vbs] in H.
+    destruct (vb le d t depth (curof pos data)) as [c1|] eqn:V; [|discriminate].
+    destruct (IH t depth pos data c1 Hg1 Hd Hb V) as (v & rest & Ht & Hw & Hk & -> & ->).
+    apply ab_app_inv in Hb. destruct Hb as [_ Hb].
+    destruct (IHr depth _ rest c' Hg2 Hd Hb H) as (vs & Hts & rest' & Hws & Hks & -> & ->).
+    exists (v :: vs). split; [cbn [map]; rewrite Ht, Hts; reflexivity|]. exists rest'.
+    cbn [wfxs forallb encs]. rewrite Hw, Hk, Hws, Hks. repeat split.
+    + rewrite <- app_assoc. reflexivity.
+    + rewrite nlen_app. f_equal. lia.
+Qed.
+
+(* ---- array elements -------------------------------------------------------------------------- *)
+Lemma elems_sound le d et depth ae : SOUND le d -> tygood et = true ->
+  forall n pos data c', all_bytes data = true -> vb_elems le d et depth ae n (curof pos data) = inl c' ->
+    exists vs, forallb (fun x => ty_eqb (ty_of_val x) et) vs = true /\ RESS le vs (depth + 1) pos data c' /\
+               ae <= pos + nlen (encs le vs pos).
+Proof.
+  intros IH Hg. induction n as [|n IHn]; intros pos data c' Hb H; [discriminate|].
+  rewrite vb_elems_S in H. cbn [curof cpos] in H. destruct (pos <? ae) eqn:Elt.
+  - fold (curof pos data) in H. apply depthchk_inv in H. destruct H as [Hd H]. unfold bind in H.
+    destruct (vb le d et (depth + 1) (curof pos data)) as [c1|] eqn:V; [|discriminate].
+    destruct (IH et (depth + 1) pos data c1 Hg Hd Hb V) as (v & rest & Ht & Hw & Hk & -> & ->).
+    apply ab_app_inv in Hb. destruct Hb as [_ Hb].
+    destruct (IHn _ rest c' Hb H) as (vs & Hts & (rest' & Hws & Hks & -> & ->) & Hae).
+    exists (v :: vs). split; [cbn [forallb]; rewrite Ht, ty_eqb_refl, Hts; reflexivity|]. split.
+    + exists rest'. cbn [wfxs forallb encs]. rewrite Hw, Hk, Hws, Hks. repeat split.
+      * rewrite <- app_assoc. reflexivity.
+      * rewrite nlen_app. f_equal. lia.
+    + cbn [encs]. rewrite nlen_app. lia.
+  - injection H as <-. exists []. split; [reflexivity|]. split.
+    + exists data. cbn [wfxs forallb encs app]. repeat split. rewrite nlen_nil, N.add_0_r. reflexivity.
+    + cbn [encs]. rewrite nlen_nil. lia.
+Qed.
+
+(* fixed-size elements, not looked at: every aligned chunk of [sz] bytes is a number *)
+Lemma chunks_sound le c sz depth : fixed_size c = Some sz -> c <> 98 -> depth <= max_value_depth ->
+  forall k b start, nlen b = N.of_nat k * sz -> all_bytes b = true -> start mod sz = 0 ->
+    exists vs, encs le vs start = b /\ forallb (fun x => ty_eqb (ty_of_val x) (TBasic c)) vs = true /\
+               wfxs le vs depth start = true /\ forallb wire_ok vs = true.
+Proof.
+  intros Hsz Hnb Hd. destruct (fixed_tables c sz Hsz) as (_ & _ & Hs).
+  induction k as [|k IH]; intros b start Hl Hb Hal.
+  - exists []. destruct b; [|rewrite nlen_cons in Hl; lia]. repeat split.
+  - assert (Hle : sz <= nlen b) by lia.
+    destruct (num_chunk le sz b Hle Hb) as [E B]. set (n := num_of le (firstn (N.to_nat sz) b)) in *.
+    assert (Hl2 : nlen (skipn (N.to_nat sz) b) = N.of_nat k * sz) by (rewrite bl_nlen_skipn; lia).
+    destruct (IH (skipn (N.to_nat sz) b) (start + sz) Hl2 (ab_skipn _ _ Hb) (aligned_step start sz Hs Hal)) as (vs & E1 & E2 & E3 & E4).
+    assert (He : enc le (VNum c n) start = bytes_of le (N.to_nat sz) n).
+    { rewrite (enc_num_aligned le c sz n start Hsz), (aligned_no_pad start sz Hs Hal). reflexivity. }
+    assert (Hn : nlen (enc le (VNum c n) start) = sz) by (rewrite He, bytes_of_length; lia).
+    exists (VNum c n :: vs). cbn [encs forallb wfxs wire_ok ty_of_val]. rewrite Hn, E1, E2, E3, E4, He, ty_eqb_refl.
+    rewrite (wfx_num le depth start c sz n Hsz Hd B ltac:(intros; contradiction)). repeat split. symmetry. exact E.
+Qed.
+
+Lemma bool_loop_sound le depth ae : depth <= max_value_depth ->
+  forall fuel p d c', all_bytes d = true -> p mod 4 = 0 -> bool_array_loop fuel le (curof p d) ae = inl c' ->
+    exists vs, forallb (fun x => ty_eqb (ty_of_val x) (TBasic 98)) vs = true /\ RESS le vs depth p d c' /\
+               ae <= p + nlen (encs le vs p).
+Proof.
+  intros Hd. induction fuel as [|f IH]; intros p d c' Hb Hal H; [discriminate|].
+  cbn [bool_array_loop] in H. cbn [curof cpos] in H. destruct (p <? ae) eqn:Elt.
+  - fold (curof p d) in H. destruct (peek4 _) as [q|] eqn:K; [|discriminate]. cbv zeta in H.
+    destruct (peek4_inv _ _ _ K) as (b0 & b1 & b2 & b3 & d' & -> & ->).
+    destruct ((unpack32 le (b0, b1, b2, b3) =? 0) || (unpack32 le (b0, b1, b2, b3) =? 1)) eqn:E01; [|discriminate].
+    rewrite advance_curof in H by (rewrite !nlen_cons; lia). cbn [N.to_nat Pos.to_nat Pos.iter_op skipn] in H.
+    change (b0 :: b1 :: b2 :: b3 :: d') with ([b0; b1; b2; b3] ++ d') in Hb. apply ab_app_inv in Hb. destruct Hb as [Hb4 Hb'].
+    destruct (IH (p + 4) d' c' Hb' ltac:(lia) H) as (vs & Hts & (rest' & Hws & Hks & -> & ->) & Hae).
+    destruct (unpack32_bytes le _ _ _ _ Hb4) as [E B]. set (n := unpack32 le (b0, b1, b2, b3)) in *.
+    assert (He : enc le (VNum 98 n) p = [b0; b1; b2; b3]).
+    { rewrite (enc_num_aligned le 98 4 n p eq_refl), (aligned_no_pad p 4 ltac:(lia) Hal). change (N.to_nat 4) with 4%nat. rewrite E. reflexivity. }
+    assert (Hn : nlen (enc le (VNum 98 n) p) = 4) by (rewrite He; reflexivity).
+    exists (VNum 98 n :: vs). split; [cbn [forallb ty_of_val]; rewrite Hts; reflexivity|]. split.
+    + exists rest'. cbn [wfxs forallb encs wire_ok]. rewrite Hn, Hws, Hks.
+      rewrite (wfx_num le depth p 98 4 n eq_refl Hd ltac:(change (256 ^ 4) with 4294967296; lia) ltac:(intros; lia)). repeat split.
+      * rewrite He. reflexivity.
+      * rewrite nlen_app, Hn. f_equal. lia.
+    + cbn [encs]. rewrite nlen_app, Hn. lia.
+  - injection H as <-. exists []. split; [reflexivity|]. split.
+    + exists d. cbn [wfxs forallb encs app]. repeat split. rewrite nlen_nil, N.add_0_r. reflexivity.
+    + cbn [encs]. rewrite nlen_nil. lia.
+Qed.
+
+(* the element region of an array *)
+Lemma arrbody_sound le d et depth len start d3 c' : SOUND le d -> tygood et = true -> depth <= max_value_depth ->
+  all_bytes d3 = true -> start mod spec_align et = 0 ->
+  arrbody (arr_elems le d et depth len) len (curof start d3) = inl c' ->
+  exists vs, forallb (fun x => ty_eqb (ty_of_val x) et) vs = true /\
+             RESS le vs (if is_fixed_ty et then depth else depth + 1) start d3 c' /\
+             nlen (encs le vs start) = len /\ len <= max_array.
+Proof.
+  intros IH Hg Hd Hb Hal H. unfold arrbody in H. cbn [curof crem cpos] in H.
+  destruct (nlen d3 <? len) eqn:El; [discriminate|].
+  destruct (len =? 0) eqn:E0.
+  { injection H as <-. apply N.eqb_eq in E0. subst len. exists []. split; [reflexivity|]. split; [|split; [reflexivity | unfold max_array; lia]].
+    exists d3. cbn [wfxs forallb encs app]. repeat split. rewrite nlen_nil, N.add_0_r. reflexivity. }
+  destruct (DBUS_MAXIMUM_ARRAY_LENGTH <? len) eqn:Emax; [discriminate|].
+  change DBUS_MAXIMUM_ARRAY_LENGTH with 67108864 in Emax.
+  fold (curof start d3) in H.
+  destruct (arr_elems le d et depth len (start + len) (curof start d3)) as [c4|] eqn:A; [|discriminate].
+  destruct (cpos c4 =? start + len) eqn:Eend; [|discriminate]. injection H as <-. apply N.eqb_eq in Eend.
+  unfold arr_elems in A. rewrite ty_is_fixed_spec in A.
+  destruct (is_fixed_ty et) eqn:Hfx.
+  - destruct et as [code| | | |]; try discriminate. cbn [is_fixed_ty] in Hfx. cbn [ty_alignment] in A.
+    unfold is_fixed_code in Hfx. destruct (fixed_size code) as [sz|] eqn:Hsz; [|discriminate].
+    destruct (fixed_tables code sz Hsz) as (_ & Hta & Hs). rewrite Hta in A.
+    assert (Hsa : spec_align (TBasic code) = sz) by (cbn [spec_align]; rewrite Hsz; reflexivity). rewrite Hsa in Hal.
+    destruct (len mod sz =? 0) eqn:Emod; [|discriminate]. cbn [negb] in A.
+    destruct (code =? DBUS_TYPE_BOOLEAN) eqn:E98.
+    + apply N.eqb_eq in E98. change DBUS_TYPE_BOOLEAN with 98 in E98. subst code.
+      assert (sz = 4) by (cbn in Hsz; congruence). subst sz.
+      destruct (bool_loop_sound le depth (start + len) Hd _ _ _ _ Hb Hal A) as (vs & Hts & (rest & Hws & Hks & E & Ec) & Hae).
+      exists vs. split; [exact Hts|]. rewrite Ec in Eend. cbn [curof cpos] in Eend.
+      split; [exists rest; repeat split; assumption|]. split; [lia | unfold max_array; lia].
+    + injection A as <-. cbn [curof cpos advance] in Eend.
+      assert (Hk : len = N.of_nat (N.to_nat (len / sz)) * sz) by (destruct Hs as [-> | [-> | [-> | ->]]]; lia).
+      assert (Hlf : nlen (firstn (N.to_nat len) d3) = len) by (apply nlen_firstn; lia).
+      rewrite Hk in Hlf at 2.
+      destruct (chunks_sound le code sz depth Hsz ltac:(change DBUS_TYPE_BOOLEAN with 98 in E98; lia) Hd _ _ start Hlf (ab_firstn _ _ Hb) Hal) as (vs & E1 & E2 & E3 & E4).
+      exists vs. split; [exact E2|]. rewrite E1. split; [|split; [apply nlen_firstn; lia | unfold max_array; lia]].
+      exists (skipn (N.to_nat len) d3). rewrite E1. repeat split; try assumption.
+      * symmetry. apply firstn_skipn.
+      * rewrite advance_curof by lia. rewrite nlen_firstn by lia. reflexivity.
+  - destruct (elems_sound le d et depth (start + len) IH Hg _ _ _ _ Hb A) as (vs & Hts & (rest & Hws & Hks & E & Ec) & Hae).
+    exists vs. split; [exact Hts|]. rewrite Ec in Eend. cbn [curof cpos] in Eend.
+    split; [exists rest; repeat split; assumption|]. split; [lia | unfold max_array; lia].
+Qed.
+
+Lemma snd_array le d et depth pos data c' : SOUND le d -> tygood et = true -> depth <= max_value_depth -> all_bytes data = true ->
+  vb le (S d) (TArray et) depth (curof pos data) = inl c' -> RES le (TArray et) depth pos data c'.
+Proof.
+  intros IH Hg Hd Hb H. rewrite vbc_array in H. unfold entry, bindp in H. destruct (crem _ =? 0); [discriminate|].
+  destruct (read_len32 le (curof pos data)) as [[len c2]|] eqn:RL; [|discriminate].
+  destruct (read_len32_inv le pos data len c2 Hb RL) as (d2 & -> & Hlen & ->).
+  apply ab_app_inv in Hb. destruct Hb as [_ Hb]. apply ab_app_inv in Hb. destruct Hb as [_ Hb2].
+  destruct (tygood_align et Hg) as [Hta Hal]. unfold bind in H. rewrite Hta in H.
+  destruct (padchk (spec_align et) _) as [c3|] eqn:P; [|discriminate].
+  destruct (padchk_inv _ _ _ _ Hal P) as (d3 & -> & ->). apply ab_app_inv in Hb2. destruct Hb2 as [_ Hb3].
+  change (pos + pad_amount pos 4 + 4 + pad_amount (pos + pad_amount pos 4 + 4) (spec_align et)) with (arr_start pos et) in H.
+  assert (Hst : arr_start pos et mod spec_align et = 0) by (unfold arr_start; apply aligned_after_pad; exact Hal).
+  destruct (arrbody_sound le d et depth len _ d3 c' IH Hg Hd Hb3 Hst H) as (vs & Hts & (rest & Hws & Hks & -> & ->) & Hn & Hmax).
+  exists (VArr et vs), rest. split; [reflexivity|]. split.
+  { rewrite wfx_arr. apply andb_true_iff. split; [lia|]. rewrite Hts, Hws, Hn. cbn [andb]. rewrite andb_true_r. lia. }
+  split.
+  { cbn [wire_ok]. rewrite Hks, Hta, N.eqb_refl. cbn [andb]. rewrite andb_true_r. lia. }
+  rewrite enc_arr. cbv zeta. fold (arr_start pos et). rewrite Hn. split.
+  - rewrite <- !app_assoc. reflexivity.
+  - rewrite !nlen_app, !nlen_zeros, (bytes_of_length le 4), Hn. f_equal. unfold arr_start. lia.
+Qed.
+
+(* ---- struct, dict entry --------------------------------------------------------------------------- *)
+Lemma snd_struct le d ts depth pos data c' : SOUND le d -> tygood (TStruct ts) = true -> depth <= max_value_depth -> all_bytes data = true ->
+  vb le (S d) (TStruct ts) depth (curof pos data) = inl c' -> RES le (TStruct ts) depth pos data c'.
+Proof.
+  intros IH Hg Hd Hb H. cbn [tygood] in Hg. apply andb_true_iff in Hg. destruct Hg as [Hne Hg].
+  rewrite vbc_struct in H. unfold entry, bind in H. destruct (crem _ =? 0); [discriminate|].
+  destruct (padchk 8 _) as [c1|] eqn:P; [|discriminate].
+  destruct (padchk_inv 8 _ _ _ ltac:(lia) P) as (d1 & -> & ->). apply ab_app_inv in Hb. destruct Hb as [_ Hb1].
+  apply depthchk_inv in H. destruct H as [Hd1 H].
+  destruct (vbs_sound le d IH ts (depth + 1) _ d1 c' Hg Hd1 Hb1 H) as (vs & Hts & rest & Hws & Hks & -> & ->).
+  exists (VStruct vs), rest. split; [cbn [ty_of_val]; rewrite Hts; reflexivity|]. split.
+  { rewrite wfx_struct. apply andb_true_iff. split; [lia|]. rewrite Hws, andb_true_r.
+    destruct vs; [cbn in Hts; subst ts; discriminate | reflexivity]. }
+  split; [exact Hks|]. rewrite enc_struct. split.
+  - rewrite <- app_assoc. reflexivity.
+  - rewrite nlen_app, nlen_zeros. f_equal. lia.
+Qed.
+
+Lemma snd_dict le d k vt depth pos data c' : SOUND le d -> tygood (TDict k vt) = true -> depth <= max_value_depth -> all_bytes data = true ->
+  vb le (S d) (TDict k vt) depth (curof pos data) = inl c' -> RES le (TDict k vt) depth pos data c'.
+Proof.
+  intros IH Hg Hd Hb H. cbn [tygood] in Hg.
+  rewrite vbc_dict in H. unfold entry, bind in H. destruct (crem _ =? 0); [discriminate|].
+  destruct (padchk 8 _) as [c1|] eqn:P; [|discriminate].
+  destruct (padchk_inv 8 _ _ _ ltac:(lia) P) as (d1 & -> & ->). apply ab_app_inv in Hb. destruct Hb as [_ Hb1].
+  apply depthchk_inv in H. destruct H as [Hd1 H].
+  assert (Hg2 : forallb tygood [TBasic k; vt] = true) by (cbn [forallb tygood]; rewrite andb_true_r; exact Hg).
+  destruct (vbs_sound le d IH _ (depth + 1) _ d1 c' Hg2 Hd1 Hb1 H) as (vs & Hts & rest & Hws & Hks & -> & ->).
+  destruct vs as [|kv [|vv [|? ?]]]; try discriminate. cbn [map] in Hts. injection Hts as Hk Hv.
+  assert (Hbk : is_basic_val kv = true) by (destruct kv; try discriminate; reflexivity).
+  exists (VDictE kv vv), rest. split.
+  { cbn [ty_of_val]. rewrite Hv. f_equal. destruct kv; try discriminate; cbn [ty_of_val] in Hk; congruence. }
+  split.
+  { rewrite wfx_dict. apply andb_true_iff. split; [lia|]. rewrite Hbk, Hws. reflexivity. }
+  split.
+  { cbn [wire_ok]. cbn [forallb] in Hks. rewrite andb_true_r in Hks. exact Hks. }
+  rewrite enc_dict. split.
+  - rewrite <- app_assoc. reflexivity.
+  - rewrite nlen_app, nlen_zeros. f_equal. lia.
+Qed.
+
+(* ---- variant ------------------------------------------------------------------------------------------ *)
+Lemma snd_variant le d depth pos data c' : SOUND le d -> depth <= max_value_depth -> all_bytes data = true ->
+  vb le (S d) TVariant depth (curof pos data) = inl c' -> RES le TVariant depth pos data c'.
+Proof.
+  intros IH Hd Hb H. rewrite vbc_variant in H. unfold entry, bindp in H. destruct (crem _ =? 0); [discriminate|].
+  destruct (sigread _ _ _ _) as [[s c2]|] eqn:SR; [|discriminate].
+  destruct (sigread_inv _ _ _ _ _ _ _ SR) as (d0 & -> & Hv & ->).
+  apply ab_cons_inv in Hb. destruct Hb as [_ Hb]. apply ab_app_inv in Hb. destruct Hb as [_ Hb].
+  apply ab_cons_inv in Hb. destruct Hb as [_ Hb0].
+  unfold varbody in H. destruct (parse_sig s) as [[|ct more]|] eqn:PS; try discriminate.
+  destruct (parse_sig_sound s _ PS) as [Es Hok]. cbn [forallb] in Hok. apply andb_true_iff in Hok. destruct Hok as [Hok _].
+  pose proof (ty_okb_tygood ct Hok) as Hg. destruct (tygood_align ct Hg) as [Hta Hal].
+  unfold bind in H. rewrite Hta in H. set (p0 := pos + 1 + nlen s + 1) in *.
+  destruct (padchk (spec_align ct) _) as [c3|] eqn:P; [|discriminate].
+  destruct (padchk_inv _ _ _ _ Hal P) as (d3 & -> & ->). apply ab_app_inv in Hb0. destruct Hb0 as [_ Hb3].
+  apply depthchk_inv in H. destruct H as [Hd1 H].
+  destruct (vb le d ct (depth + 1) _) as [c4|] eqn:V; [|discriminate].
+  unfold final in H. destruct more as [|? ?]; [|discriminate]. injection H as <-.
+  cbn [flat_map] in Es. rewrite app_nil_r in Es. subst s.
+  destruct (IH ct (depth + 1) _ d3 c4 Hg Hd1 Hb3 V) as (x & rest & Ht & Hw & Hk & -> & ->).
+  assert (Hw0 : wfx le (depth + 1) p0 x = true) by (rewrite <- Ht, wfx_split in Hw; exact Hw).
+  assert (Hp0 : p0 = pos + (nlen (print_ty ct) + 2)) by (unfold p0; lia).
+  assert (Hsplit : zeros (pad_amount p0 (spec_align ct)) ++ enc le x (p0 + pad_amount p0 (spec_align ct)) = enc le x p0).
+  { rewrite (enc_split_x le x _ _ Hw0), Ht. reflexivity. }
+  exists (VVar ct x), rest. split; [reflexivity|]. split.
+  { cbn [wfx]. apply andb_true_iff. split; [lia|]. rewrite Ht, ty_eqb_refl. rewrite <- Hp0, Hw0. cbn [andb]. rewrite andb_true_r.
+    unfold sig_model. rewrite PS, ty_eqb_refl, Hv. destruct (validate_signature_shape _ Hv) as [Hl _]. rewrite !andb_true_r. lia. }
+  split.
+  { cbn [wire_ok]. rewrite Hv, Hk. reflexivity. }
+  rewrite enc_var. cbv zeta.
+  assert (Hhd : pos + nlen (nlen (print_ty ct) :: print_ty ct ++ [0]) = p0).
+  { rewrite nlen_cons, nlen_app. change (nlen [0]) with 1. unfold p0. lia. }
+  rewrite Hhd. split.
+  - cbn [app]. rewrite <- !app_assoc. cbn [app]. rewrite <- Hsplit. rewrite <- !app_assoc. reflexivity.
+  - rewrite nlen_app. rewrite <- Hsplit. rewrite nlen_app, nlen_zeros. f_equal.
+    rewrite nlen_cons, nlen_app. change (nlen [0]) with 1. unfold p0. lia.
+Qed.
+
+(* ---- the value-level theorem ------------------------------------------------------------------------------ *)
+Theorem vb_sound_fuel le : forall d, SOUND le d.
+Proof.
+  induction d as [|d IH]; intros t depth pos data c' Hg Hd Hb H; [discriminate|].
+  destruct t as [code| |et|ts|k v].
+  - destruct (code =? DBUS_TYPE_BYTE) eqn:Eb.
+    { apply N.eqb_eq in Eb. subst code. apply (snd_byte le d); assumption. }
+    destruct (type_fixed code) eqn:Ef.
+    { apply (snd_fixed le d); assumption. }
+    destruct ((code =? DBUS_TYPE_STRING) || (code =? DBUS_TYPE_OBJECT_PATH)) eqn:Es.
+    { apply (snd_string le d); assumption. }
+    destruct (code =? DBUS_TYPE_SIGNATURE) eqn:Eg.
+    { apply N.eqb_eq in Eg. subst code. apply (snd_signature le d); assumption. }
+    rewrite (vbc_gap le d code depth _ Eb Ef Es Eg) in H. unfold entry in H. destruct (crem _ =? 0); discriminate.
+  - apply (snd_variant le d); assumption.
+  - apply (snd_array le d); assumption.
+  - apply (snd_struct le d); assumption.
+  - apply (snd_dict le d); assumption.
+Qed.
+
+(* ---- an error verdict of the validator is never V_VALID ------------------------------------------------ *)
+Definition NV (f : cursor -> res) : Prop := forall c e, f c = inr e -> e <> V_VALID.
+Definition NVp {A} (f : cursor -> pres A) : Prop := forall c e, f c = inr e -> e <> V_VALID.
+
+Ltac nvc := let E := fresh "E" in intro E; vm_compute in E; discriminate E.
+Ltac nvi H := injection H as <-; nvc.
+
+Lemma NV_eq f g : (forall c, f c = g c) -> NV g -> NV f.
+Proof. intros E H c e Hf. rewrite E in Hf. exact (H c e Hf). Qed.
+Lemma NV_ret : NV ret. Proof. intros c e H. discriminate. Qed.
+Lemma NV_err e0 : e0 <> V_VALID -> NV (fun _ => inr e0).
+Proof. intros H0 c e H. injection H as <-. exact H0. Qed.
+Lemma NV_bind f k : NV f -> NV k -> NV (bind f k).
+Proof. intros Hf Hk c e H. unfold bind in H. destruct (f c) as [c1|e1] eqn:E1; [exact (Hk c1 e H) | injection H as <-; exact (Hf c e1 E1)]. Qed.
+Lemma NV_bindp {A} (f : cursor -> pres A) k : NVp f -> (forall a, NV (k a)) -> NV (bindp f k).
+Proof. intros Hf Hk c e H. unfold bindp in H. destruct (f c) as [[a c1]|e1] eqn:E1; [exact (Hk a c1 e H) | injection H as <-; exact (Hf c e1 E1)]. Qed.
+Lemma NV_entry f : NV f -> NV (entry f).
+Proof. intros Hf c e H. unfold entry in H. destruct (crem c =? 0); [nvi H | exact (Hf c e H)]. Qed.
+Lemma NV_depthchk depth f : NV f -> NV (depthchk depth f).
+Proof. intros Hf c e H. unfold depthchk in H. destruct (maxdepth <? depth + 1); [nvi H | exact (Hf c e H)]. Qed.
+
+Lemma NV_pad_loop : forall n, NV (pad_loop n).
+Proof.
+  induction n as [|n IH]; intros c e H; [discriminate|]. cbn [pad_loop] in H.
+  destruct (take1 c) as [[b c1]|]; [|nvi H]. destruct (b =? 0); [exact (IH c1 e H) | nvi H].
+Qed.
+Lemma NV_pad_to a : NV (fun c => pad_to c a).
+Proof. intros c e H. exact (NV_pad_loop _ c e H). Qed.
+Lemma NV_padchk al : NV (padchk al).
+Proof. intros c e H. unfold padchk in H. cbv zeta in H. destruct (_ <? _); [nvi H | exact (NV_pad_to _ c e H)]. Qed.
+Lemma NV_read_len32 le : NVp (read_len32 le).
+Proof.
+  intros c e H. unfold read_len32 in H. cbv zeta in H. destruct (_ <? _); [nvi H|].
+  destruct (pad_to c (align_up (cpos c) 4)) as [c1|e1] eqn:P; [|injection H as <-; exact (NV_pad_to _ c e1 P)].
+  destruct (peek4 c1); [discriminate | nvi H].
+Qed.
+Lemma NV_post al : NV (post al).
+Proof. intros c e H. unfold post in H. destruct (_ <? _); [nvi H | discriminate]. Qed.
+Lemma NV_boolpost le : NV (boolpost le).
+Proof.
+  intros c e H. unfold boolpost in H. destruct (_ <? _); [nvi H|]. destruct (peek4 c); [|nvi H]. cbv zeta in H.
+  destruct (_ || _); [exact (NV_post 4 c e H) | nvi H].
+Qed.
+Lemma NV_fixedbody le code : NV (fixedbody le code).
+Proof.
+  intros c e H. unfold fixedbody in H. cbv zeta in H. destruct (_ <=? _); [nvi H|]. revert H. apply NV_bind; [apply NV_pad_to|].
+  destruct (code =? DBUS_TYPE_BOOLEAN); [apply NV_boolpost | apply NV_post].
+Qed.
+Lemma NV_strbody code len : NV (strbody (str_ok code) len).
+Proof.
+  intros c e H. unfold strbody in H. destruct (_ <? _); [nvi H|].
+  destruct (str_ok code _) as [e0|] eqn:Eok.
+  - injection H as <-. unfold str_ok in Eok. destruct (code =? DBUS_TYPE_OBJECT_PATH).
+    + destruct (validate_path _); [discriminate | nvi Eok].
+    + destruct (validate_utf8 _) as [[|]|]; [discriminate | nvi Eok | nvi Eok].
+  - cbv zeta in H. destruct (_ =? 0); [nvi H|]. destruct (take1 _) as [[b c4]|]; [|nvi H]. destruct (b =? 0); [discriminate | nvi H].
+Qed.
+Lemma NV_sigread e1 e2 e3 : e1 <> V_VALID -> (forall v, v <> V_VALID -> e2 v <> V_VALID) -> e3 <> V_VALID -> NVp (sigread e1 e2 e3).
+Proof.
+  intros H1 H2 H3 c e H. unfold sigread in H. destruct (take1 c) as [[len c1]|]; [|nvi H].
+  destruct (_ <? _); [injection H as <-; exact H1|]. cbv zeta in H.
+  destruct (Z.eqb _ V_VALID) eqn:Ev; cbn [negb] in H.
+  - destruct (take1 _) as [[b c2]|]; [|nvi H]. destruct (b =? 0); [discriminate | injection H as <-; exact H3].
+  - injection H as <-. apply H2. intros E. rewrite E in Ev. discriminate.
+Qed.
+Lemma NV_bool_loop le ae : forall fuel, NV (fun c => bool_array_loop fuel le c ae).
+Proof.
+  induction fuel as [|f IH]; intros c e H; [nvi H|]. cbn [bool_array_loop] in H.
+  destruct (_ <? _); [|discriminate]. destruct (peek4 c); [|nvi H]. cbv zeta in H.
+  destruct (_ || _); [exact (IH _ e H) | nvi H].
+Qed.
+Lemma NV_vbs le d depth : forall ts, (forall t, NV (vb le d t depth)) -> NV (vbs le d ts depth).
+Proof.
+  induction ts as [|t r IH]; intros Ht; [exact NV_ret|].
+  apply (NV_eq _ _ (vbs_cons le d t r depth)). apply NV_bind; [apply Ht | apply IH; exact Ht].
+Qed.
+Lemma NV_vb_elems le d et depth ae : NV (vb le d et (depth + 1)) -> forall n, NV (vb_elems le d et depth ae n).
+Proof.
+  intros Hv. induction n as [|n IH]; intros c e H; [nvi H|]. rewrite vb_elems_S in H.
+  destruct (_ <? _); [|discriminate]. revert H. apply NV_depthchk. apply NV_bind; assumption.
+Qed.
+Lemma NV_arr_elems le d et depth len ae : NV (vb le d et (depth + 1)) -> NV (arr_elems le d et depth len ae).
+Proof.
+  intros Hv c e H. unfold arr_elems in H. destruct (ty_is_fixed et).
+  - destruct (negb _); [nvi H|]. destruct et as [code| | | |]; try discriminate.
+    destruct (code =? DBUS_TYPE_BOOLEAN); [exact (NV_bool_loop le ae _ c e H) | discriminate].
+  - exact (NV_vb_elems le d et depth ae Hv _ c e H).
+Qed.
+Lemma NV_arrbody r len : (forall ae, NV (r ae)) -> NV (arrbody r len).
+Proof.
+  intros Hr c e H. unfold arrbody in H. destruct (_ <? _); [nvi H|]. destruct (len =? 0); [discriminate|].
+  destruct (_ <? _); [nvi H|]. destruct (r (cpos c + len) c) as [c4|e4] eqn:R; [|injection H as <-; exact (Hr _ c e4 R)].
+  destruct (_ =? _); [discriminate | nvi H].
+Qed.
+Lemma NV_final more : NV (final more).
+Proof. intros c e H. unfold final in H. destruct more; [discriminate | nvi H]. Qed.
+Lemma NV_varbody le d depth s : (forall t depth, NV (vb le d t depth)) -> NV (varbody le d depth s).
+Proof.
+  intros IH. unfold varbody. destruct (parse_sig s) as [[|ct more]|]; [apply NV_err; nvc | | apply NV_err; nvc].
+  apply NV_bind; [apply NV_padchk|]. apply NV_depthchk. apply NV_bind; [apply IH | apply NV_final].
+Qed.
+
+Theorem vb_NV le : forall d t depth, NV (vb le d t depth).
+Proof.
+  induction d as [|d IH]; intros t depth; [intros c e H; nvi H|].
+  destruct t as [code| |et|ts|k v].
+  - destruct (code =? DBUS_TYPE_BYTE) eqn:Eb.
+    { apply N.eqb_eq in Eb. subst code. apply (NV_eq _ _ (vbc_byte le d depth)). apply NV_entry, NV_post. }
+    destruct (type_fixed code) eqn:Ef.
+    { apply (NV_eq _ _ (fun c => vbc_fixed le d code depth c Eb Ef)). apply NV_entry, NV_fixedbody. }
+    destruct ((code =? DBUS_TYPE_STRING) || (code =? DBUS_TYPE_OBJECT_PATH)) eqn:Es.
+    { apply (NV_eq _ _ (fun c => vbc_string le d code depth c Eb Ef Es)). apply NV_entry.
+      apply NV_bindp; [apply NV_read_len32 | intros len; apply NV_strbody]. }
+    destruct (code =? DBUS_TYPE_SIGNATURE) eqn:Eg.
+    { apply N.eqb_eq in Eg. subst code. apply (NV_eq _ _ (vbc_signature le d depth)). apply NV_entry.
+      apply NV_bindp; [apply NV_sigread; [nvc | intros v Hv; exact Hv | nvc] | intros _; apply NV_ret]. }
+    apply (NV_eq _ _ (fun c => vbc_gap le d code depth c Eb Ef Es Eg)). apply NV_entry. apply NV_err. nvc.
+  - apply (NV_eq _ _ (vbc_variant le d depth)). apply NV_entry.
+    apply NV_bindp; [apply NV_sigread; [nvc | intros v _; nvc | nvc] | intros s; apply NV_varbody; exact IH].
+  - apply (NV_eq _ _ (vbc_array le d et depth)). apply NV_entry.
+    apply NV_bindp; [apply NV_read_len32 | intros len].
+    apply NV_bind; [apply NV_padchk|]. apply NV_arrbody. intros ae. apply NV_arr_elems. apply IH.
+  - apply (NV_eq _ _ (vbc_struct le d ts depth)). apply NV_entry.
+    apply NV_bind; [apply NV_padchk|]. apply NV_depthchk. apply NV_vbs. intros t. apply IH.
+  - apply (NV_eq _ _ (vbc_dict le d k v depth)). apply NV_entry.
+    apply NV_bind; [apply NV_padchk|]. apply NV_depthchk. apply NV_vbs. intros t. apply IH.
+Qed.
+
+Lemma vb_seq_NV le depth : forall ts c e, vb_seq le ts depth c = inr e -> e <> V_VALID.
+Proof. intros ts c e H. rewrite vb_seq_vbs in H. revert H. apply NV_vbs. intros t. apply vb_NV. Qed.
+
+(* (1) in cursor form.  [wfc c]: crem c = nlen (cdat c). *)
+Theorem vb_sound le d t depth c c' : wfc c -> all_bytes (cdat c) = true -> tygood t = true -> depth <= max_value_depth ->
+  vb le d t depth c = inl c' ->
+  exists v, ty_of_val v = t /\ wfx le depth (cpos c) v = true /\ wire_ok v = true /\
+            cdat c = enc le v (cpos c) ++ cdat c' /\ cpos c' = cpos c + nlen (enc le v (cpos c)) /\ wfc c'.
+Proof.
+  intros Hw Hb Hg Hd H. rewrite (curof_eq c Hw) in H.
+  destruct (vb_sound_fuel le d t depth (cpos c) (cdat c) c' Hg Hd Hb H) as (v & rest & Ht & Hwx & Hk & E & ->).
+  exists v. cbn [curof cdat cpos]. repeat split; assumption.
+Qed.
+
+(* the same with the specification's own well-formedness, outside the two deviations *)
+Corollary vb_sound_wfb le d t depth c c' : wfc c -> all_bytes (cdat c) = true -> tygood t = true -> depth <= max_value_depth ->
+  vb le d t depth c = inl c' ->
+  exists v, ty_of_val v = t /\ (nodev depth v = true -> wfb le depth (cpos c) v = true) /\ wire_ok v = true /\
+            cdat c = enc le v (cpos c) ++ cdat c' /\ cpos c' = cpos c + nlen (enc le v (cpos c)).
+Proof.
+  intros Hw Hb Hg Hd H. destruct (vb_sound le d t depth c c' Hw Hb Hg Hd H) as (v & Ht & Hwx & Hk & E & P & _).
+  exists v. repeat split; try assumption. intros Hn. apply wfx_wfb; assumption.
+Qed.
+
+(* types coming out of the signature parser satisfy the premise *)
+Corollary vb_sound_parsed le d s ts t depth c c' : parse_sig s = Some ts -> In t ts ->
+  wfc c -> all_bytes (cdat c) = true -> depth <= max_value_depth -> vb le d t depth c = inl c' ->
+  exists v, ty_of_val v = t /\ wfx le depth (cpos c) v = true /\ wire_ok v = true /\
+            cdat c = enc le v (cpos c) ++ cdat c' /\ cpos c' = cpos c + nlen (enc le v (cpos c)) /\ wfc c'.
+Proof.
+  intros P Hin Hw Hb Hd H. apply parse_sig_tygood in P. rewrite forallb_forall in P.
+  apply (vb_sound le d t depth c c' Hw Hb (P t Hin) Hd H).
+Qed.
+
+(* ---- (1) sequences: a message body ---------------------------------------------------------------------------- *)
+Theorem vb_seq_sound le ts pos data c' : forallb tygood ts = true -> all_bytes data = true ->
+  vb_seq le ts 0 (cur_of pos data) = inl c' ->
+  exists vs rest, map ty_of_val vs = ts /\ wfxs le vs 0 pos = true /\ forallb wire_ok vs = true /\
+                  data = encs le vs pos ++ rest /\ c' = curof (pos + nlen (encs le vs pos)) rest.
+Proof.
+  intros Hg Hb H. rewrite vb_seq_vbs in H. change (cur_of pos data) with (curof pos data) in H.
+  destruct (vbs_sound le DEPTH_FUEL (vb_sound_fuel le DEPTH_FUEL) ts 0 pos data c' Hg ltac:(unfold max_value_depth; lia) Hb H)
+    as (vs & Hts & rest & Hws & Hks & E & Ec).
+  exists vs, rest. repeat split; assumption.
+Qed.
+
+Theorem validate_body_sound le tys body : forallb tygood tys = true -> all_bytes body = true ->
+  validate_body le tys body = V_VALID ->
+  exists vs, map ty_of_val vs = tys /\ wfxs le vs 0 0 = true /\ forallb wire_ok vs = true /\ body = encs le vs 0.
+Proof.
+  intros Hg Hb H. unfold validate_body in H.
+  destruct (vb_seq le tys 0 (cur_of 0 body)) as [c|e] eqn:V.
+  - destruct (vb_seq_sound le tys 0 body c Hg Hb V) as (vs & rest & Hts & Hws & Hks & E & ->).
+    cbn [curof crem] in H. destruct (0 <? nlen rest) eqn:E0; [discriminate|].
+    destruct rest; [|rewrite nlen_cons in E0; lia]. rewrite app_nil_r in E. exists vs. repeat split; assumption.
+  - exfalso. subst e. exact (vb_seq_NV le 0 tys _ _ V eq_refl).
+Qed.
+
+(* the same, with the specification's well-formedness outside the deviations, and the decoder *)
+Lemma wfxs_wfsb_all le vs depth pos : forallb (nodev depth) vs = true -> wfxs le vs depth pos = true -> wfsb le vs depth pos = true.
+Proof.
+  apply (wfxs_wfsb le vs). apply Forall_forall. intros v _ depth0 pos0. apply wfx_wfb.
+Qed.
+
+Corollary validate_body_sound_wfb le tys body : forallb tygood tys = true -> all_bytes body = true ->
+  validate_body le tys body = V_VALID ->
+  exists vs, map ty_of_val vs = tys /\ forallb wire_ok vs = true /\ body = encs le vs 0 /\
+             (forallb (nodev 0) vs = true -> wfsb le vs 0 0 = true /\ dec_seq le tys 0 body = Some (vs, nlen body, [])).
+Proof.
+  intros Hg Hb H. destruct (validate_body_sound le tys body Hg Hb H) as (vs & Hts & Hws & Hks & E).
+  exists vs. split; [exact Hts|]. split; [exact Hks|]. split; [exact E|]. intros Hn.
+  pose proof (wfxs_wfsb_all le vs 0 0 Hn Hws) as Hw. split; [exact Hw|].
+  pose proof (dec_seq_encs le vs 0 [] Hw) as D.
+  rewrite app_nil_r, Hts, <- E in D. rewrite D. rewrite N.add_0_l. reflexivity.
+Qed.
+
+(* a body whose signature was accepted by the automaton *)
+Corollary validate_body_sound_sig le sg tys body : parse_sig sg = Some tys -> all_bytes body = true ->
+  validate_body le tys body = V_VALID ->
+  exists vs, map ty_of_val vs = tys /\ wfxs le vs 0 0 = true /\ forallb wire_ok vs = true /\ body = encs le vs 0.
+Proof. intros P. apply validate_body_sound. exact (parse_sig_tygood sg tys P). Qed.
+
+(* ---- the statement with [wfb] itself is false: both deviations, concretely ---------------------------- *)
+Definition vb_sound_unrestricted : Prop :=
+  forall le d t depth c c', wfc c -> all_bytes (cdat c) = true -> tygood t = true -> depth <= max_value_depth ->
+    vb le d t depth c = inl c' ->
+    exists v, ty_of_val v = t /\ wfb le depth (cpos c) v = true /\ cdat c = enc le v (cpos c) ++ cdat c'.
+
+Fixpoint nestv (n : nat) (inner : bytes) : bytes :=
+  match n with O => inner | S k => [1; 118; 0] ++ nestv k inner end.
+(* FD65: 64 nested variants, the innermost holding the byte array [7] *)
+Definition deep65 : bytes := nestv 63 ([2; 97; 121; 0] ++ [0; 0; 0] ++ [1; 0; 0; 0] ++ [7]).
+
+Fixpoint rep {A} (n : nat) (l : list A) : list A := match n with O => [] | S k => l ++ rep k l end.
+(* F11: a SIGNATURE value "a(" x32 "ai" ")" x32, 33 nested arrays *)
+Definition sig33 : bytes := rep 32 [97; 40] ++ [97; 105] ++ rep 32 [41].
+Definition sigval33 : bytes := 98 :: sig33 ++ [0].
+
+Lemma refute_with (t : ty) (data : bytes) (n : N) :
+  vb true DEPTH_FUEL t 0 (cur_of 0 data) = inl (curof n []) -> all_bytes data = true -> tygood t = true ->
+  dec true DEC_FUEL t 0 0 data = None -> ~ vb_sound_unrestricted.
+Proof.
+  intros V Hb Hg D H.
+  destruct (H true DEPTH_FUEL t 0 (cur_of 0 data) (curof n []) (wfc_cur_of 0 data) Hb Hg ltac:(unfold max_value_depth; lia) V) as (v & Ht & Hw & E).
+  cbn [cur_of curof cdat cpos] in E, Hw.
+  pose proof (wfb_height true v 0 0 Hw) as Hh.
+  pose proof (dec_enc true v DEC_FUEL 0 0 [] Hw ltac:(unfold DEC_FUEL; lia)) as D'.
+  rewrite <- E, Ht, D in D'. discriminate.
+Qed.
+
+Theorem vb_sound_unrestricted_refuted : ~ vb_sound_unrestricted.
+Proof. apply (refute_with TVariant deep65 201); vm_compute; reflexivity. Qed.
+
+Theorem vb_sound_unrestricted_refuted_F11 : ~ vb_sound_unrestricted.
+Proof. apply (refute_with (TBasic 103) sigval33 100); vm_compute; reflexivity. Qed.
+
+(* the relaxed statement holds on both witnesses, with values that [nodev] rejects *)
+Example deep65_accepted : validate_body true [TVariant] deep65 = V_VALID /\ dec_seq true [TVariant] 0 deep65 = None.
+Proof. split; vm_compute; reflexivity. Qed.
+Example sigval33_accepted : validate_body true [TBasic 103] sigval33 = V_VALID /\ dec_seq true [TBasic 103] 0 sigval33 = None.
+Proof. split; vm_compute; reflexivity. Qed.
+
+(* ---- the exclusion is exact: wfb = wfx /\ nodev ------------------------------------------------------------ *)
+Lemma leaf_depth le d d' pos x : is_basic_val x = true -> d' <= max_value_depth -> wfx le d pos x = true -> wfx le d' pos x = true.
+Proof.
+  destruct x as [c n|c s| | | | ]; try discriminate; intros _ Hd H; cbn [wfx] in *;
+    apply andb_true_iff in H; destruct H as [_ H]; apply andb_true_iff; (split; [lia | exact H]).
+Qed.
+
+Lemma roundtrips_sig_model t : sig_roundtrips t = true -> sig_model t = true /\ array_nest t <= 32.
+Proof.
+  unfold sig_roundtrips, sig_model. intros H.
+  apply andb_true_iff in H. destruct H as [H Hp]. apply andb_true_iff in H. destruct H as [Hl Hs].
+  unfold spec_single_signature in Hs. apply andb_true_iff in Hs. destruct Hs as [Hs _].
+  rewrite Hl, Hp, (spec_signature_validate _ Hs). split; [reflexivity|].
+  destruct (parse_sig (print_ty t)) as [[|t' [|? ?]]|] eqn:P; try discriminate. apply ty_eqb_eq in Hp. subst t'.
+  unfold spec_signature in Hs. rewrite P in Hs. cbn [forallb] in Hs. lia.
+Qed.
+
+Lemma wfsb_wfxs le : forall vs,
+  Forall (fun v => forall depth pos, wfb le depth pos v = true -> wfx le depth pos v = true /\ nodev depth v = true) vs ->
+  forall depth pos, wfsb le vs depth pos = true -> wfxs le vs depth pos = true /\ forallb (nodev depth) vs = true.
+Proof.
+  induction 1 as [|x r Hx Hr IH]; intros depth pos H; [split; reflexivity|].
+  cbn [wfxs wfsb forallb] in *. apply andb_true_iff in H. destruct H as [H1 H2].
+  destruct (Hx _ _ H1) as [A1 A2]. destruct (IH _ _ H2) as [B1 B2]. rewrite A1, A2, B1, B2. split; reflexivity.
+Qed.
+
+Theorem wfb_wfx le : forall v depth pos, wfb le depth pos v = true -> wfx le depth pos v = true /\ nodev depth v = true.
+Proof.
+  induction v as [c n|c s|et vs IH|fs IH|k x IHk IHx|t x IHx] using val_ind'; intros depth pos H.
+  - split; [exact H | reflexivity].
+  - cbn [wfb wfx nodev] in *. apply andb_true_iff in H. destruct H as [Hd H]. rewrite Hd. cbn [andb].
+    destruct (c =? 115) eqn:E1; [split; [exact H | replace (c =? 103) with false by lia; reflexivity]|].
+    destruct (c =? 111) eqn:E2; [split; [exact H | replace (c =? 103) with false by lia; reflexivity]|].
+    destruct (c =? 103); [|discriminate]. cbn [negb orb]. split; [apply spec_signature_validate; exact H | exact H].
+  - rewrite wfb_arr in H. rewrite wfx_arr. cbn [nodev]. apply andb_true_iff in H. destruct H as [Hd H]. rewrite Hd. cbn [andb].
+    apply andb_true_iff in H. destruct H as [H Hws]. rewrite H. cbn [andb].
+    apply andb_true_iff in H. destruct H as [Hty _].
+    destruct (wfsb_wfxs le vs IH _ _ Hws) as [A B]. rewrite B, andb_true_r.
+    destruct (is_fixed_ty et) eqn:Hf; [|rewrite A; split; reflexivity]. cbn [negb orb].
+    destruct vs as [|v0 vs']; [split; reflexivity|]. cbn [isnil orb].
+    pose proof (wfsb_depth le _ _ _ _ Hws) as Hd1. rewrite Hd1. split; [|reflexivity].
+    clear IH B Hws Hd1. revert Hty A. generalize (arr_start pos et). generalize (v0 :: vs').
+    induction l as [|x r IHr]; intros p Hty A; [reflexivity|]. cbn [forallb wfxs] in *.
+    apply andb_true_iff in Hty. destruct Hty as [T1 T2]. apply andb_true_iff in A. destruct A as [A1 A2].
+    rewrite (leaf_depth le (depth + 1) depth p x (fixed_elems_leaf et x Hf T1) ltac:(lia) A1). cbn [andb]. apply IHr; assumption.
+  - rewrite wfb_struct in H. rewrite wfx_struct. cbn [nodev]. apply andb_true_iff in H. destruct H as [Hd H]. rewrite Hd. cbn [andb].
+    apply andb_true_iff in H. destruct H as [Hne Hws]. rewrite Hne. cbn [andb]. exact (wfsb_wfxs le fs IH _ _ Hws).
+  - rewrite wfb_dict in H. rewrite wfx_dict. cbn [nodev]. apply andb_true_iff in H. destruct H as [Hd H]. rewrite Hd. cbn [andb].
+    apply andb_true_iff in H. destruct H as [Hk Hws]. rewrite Hk. cbn [andb].
+    destruct (wfsb_wfxs le [k; x] (Forall_cons k IHk (Forall_cons x IHx (Forall_nil _))) _ _ Hws) as [A B].
+    split; [exact A|]. cbn [forallb] in B. rewrite andb_true_r in B. exact B.
+  - cbn [wfb wfx nodev] in *. apply andb_true_iff in H. destruct H as [Hd H]. rewrite Hd. cbn [andb].
+    apply andb_true_iff in H. destruct H as [H Hx]. apply andb_true_iff in H. destruct H as [Hty Hrt]. rewrite Hty. cbn [andb].
+    destruct (roundtrips_sig_model t Hrt) as [Hsm Ha]. rewrite Hsm. cbn [andb]. destruct (IHx _ _ Hx) as [A B]. rewrite A, B.
+    split; [reflexivity|]. rewrite andb_true_r. lia.
+Qed.
+
+Corollary wfb_iff le v depth pos : wfb le depth pos v = true <-> wfx le depth pos v = true /\ nodev depth v = true.
+Proof. split; [apply wfb_wfx | intros [A B]; apply wfx_wfb; assumption]. Qed.
+
+Lemma wfsb_nodev le vs depth pos : wfsb le vs depth pos = true -> forallb (nodev depth) vs = true.
+Proof.
+  intros H. apply (wfsb_wfxs le vs) in H; [exact (proj2 H)|]. apply Forall_forall. intros v _ depth0 pos0. apply wfb_wfx.
+Qed.
+
+Print Assumptions vb_sound.
+Print Assumptions validate_body_sound_wfb.
+Print Assumptions vb_sound_unrestricted_refuted.
